@@ -363,6 +363,18 @@ class Grid(object):
         xv = self.cell2coord(cells)
         return xv[:, 1]
 
+    def _clipdata(self, values):
+        """ Clip values to the finite data bounds only. Clipping integers
+        with infinite bounds converts them to floats, which alters
+        values beyond 2^53.
+        """
+        vmin = None if np.isinf(self._mindata) else self._mindata
+        vmax = None if np.isinf(self._maxdata) else self._maxdata
+        if vmin is None and vmax is None:
+            return values.astype(self.dtype)
+
+        return np.clip(values, vmin, vmax).astype(self.dtype)
+
     @property
     def data(self):
         """ Get grid data """
@@ -390,8 +402,7 @@ class Grid(object):
                       + f" data has {ncols}, but expects {self.ncols}."
             raise ValueError(errmess)
 
-        self._data = np.clip(_value, self.mindata,
-                             self.maxdata).astype(self.dtype)
+        self._data = self._clipdata(_value)
 
     @property
     def nodata(self):
@@ -503,8 +514,7 @@ class Grid(object):
                       + f" expecting {nval}."
             raise ValueError(errmess)
 
-        self._data = np.clip(data.reshape((self.nrows, self.ncols)),
-                             self.mindata, self.maxdata).astype(self.dtype)
+        self._data = self._clipdata(data.reshape((self.nrows, self.ncols)))
 
     def to_dict(self):
         """ Export grid metadata to json """
